@@ -5,6 +5,7 @@ import (
 	"os"
 	"runtime/debug"
 	"sort"
+	"strconv"
 	"strings"
 	"sync"
 	"time"
@@ -13,23 +14,23 @@ import (
 )
 
 type Config struct {
-	MaxSteps        int
-	MaxBlockVisits  int
-	MaxEnum         int
-	MaxPaths        int
-	Workers         int
-	TimeoutMs       int
-	InjectiveConcat bool
+	MaxSteps         int
+	MaxBlockVisits   int
+	MaxEnum          int
+	MaxPaths         int
+	Workers          int
+	TimeoutMs        int
+	InjectiveConcat  bool
 	InjectiveSprintf bool
-	ExactDecimal bool
-	StructuredKeys bool
-	DecodeMaxLen int
-	ParamMaxLen int
-	Solver          string
-	LogSMT          string
-	Known           map[string]bool // ids of findings with status "known"
-	Tier            string
-	Seed            int64
+	ExactDecimal     bool
+	StructuredKeys   bool
+	DecodeMaxLen     int
+	ParamMaxLen      int
+	Solver           string
+	LogSMT           string
+	Known            map[string]bool // ids of findings with status "known"
+	Tier             string
+	Seed             int64
 }
 
 type Cex struct {
@@ -41,6 +42,8 @@ type Cex struct {
 	PathNotes  []string          `json:"path_notes,omitempty"`
 	Decisions  []bool            `json:"decisions"`
 	Extra      map[string]string `json:"extra,omitempty"`
+	Literals   map[string]string `json:"literals,omitempty"` // abstract string element -> literal content
+	Lens       map[string]uint64 `json:"lens,omitempty"`     // abstract string element -> its length in the model
 }
 
 type CexValue struct {
@@ -63,37 +66,37 @@ type Explorer struct {
 	entry *ssa.Function
 	cfg   *Config
 
-	mu        sync.Mutex
-	cond      *sync.Cond
-	queue     [][]bool
-	active    int
-	paths     int
-	pathsDead int
-	states    int
-	transitions int
-	obs       map[string]*ObStat
-	cexs      []*Cex
-	knownSeen map[string]*Cex
-	reach     map[string]int
-	reachSample map[string][]CexValue
-	engineErrs []string
-	unwinds   []string
-	unknowns  []string
-	funcs     map[string]int
-	modelsUsed map[string]int
+	mu            sync.Mutex
+	cond          *sync.Cond
+	queue         [][]bool
+	active        int
+	paths         int
+	pathsDead     int
+	states        int
+	transitions   int
+	obs           map[string]*ObStat
+	cexs          []*Cex
+	knownSeen     map[string]*Cex
+	reach         map[string]int
+	reachSample   map[string][]CexValue
+	engineErrs    []string
+	unwinds       []string
+	unknowns      []string
+	funcs         map[string]int
+	modelsUsed    map[string]int
 	overridesUsed map[string]int
-	autoUsed  map[string]int
-	panicsSeen map[string]int
-	forkSites map[string]int
-	stopped   bool
+	autoUsed      map[string]int
+	panicsSeen    map[string]int
+	forkSites     map[string]int
+	stopped       bool
 
-	gmu        sync.Mutex
-	globals    map[*ssa.Global]Ptr
-	inited     map[*ssa.Package]bool
-	initPath   *Path
-	initAxioms []*Term
-	initNotes  []string
-	start      time.Time
+	gmu           sync.Mutex
+	globals       map[*ssa.Global]Ptr
+	inited        map[*ssa.Package]bool
+	initPath      *Path
+	initAxioms    []*Term
+	initNotes     []string
+	start         time.Time
 	expectedReach []string
 }
 
@@ -363,7 +366,7 @@ func (it *Interp) obligation(id string, cond *Term, desc string) {
 	for _, k := range ks {
 		notK = append(notK, Not(p.known[k]))
 	}
-	srcTerms := p.sourceTerms()
+	srcTerms := p.queryTerms()
 	r, vals := p.s.ModelWith(notK, srcTerms)
 	violated := false
 	switch r {
@@ -422,6 +425,21 @@ func (p *Path) sourceTerms() []*Term {
 	return ts
 }
 
+// queryTerms: everything a counterexample reports - the sources, the literal table, and the length of every opaque string source.
+func (p *Path) queryTerms() []*Term {
+	ts := p.sourceTerms()
+	n := len(ts)
+	for _, l := range p.litOrder {
+		ts = append(ts, p.lits[l])
+	}
+	for _, t := range ts[:n] {
+		if t.sort == SStr {
+			ts = append(ts, App("len", bvSort(64), t))
+		}
+	}
+	return ts
+}
+
 func (p *Path) buildCex(id, kind, desc string, vals []string) *Cex {
 	c := &Cex{Harness: p.ex.entry.Name(), Obligation: id, Kind: kind, Desc: desc, PathNotes: append([]string(nil), p.notes...)}
 	for _, d := range p.trace {
@@ -440,5 +458,27 @@ func (p *Path) buildCex(id, kind, desc string, vals []string) *Cex {
 	}
 	// literal table so that replays can map abstract string elements back to literals
 	c.Extra = map[string]string{}
+	c.Literals = map[string]string{}
+	for _, n := range p.litOrder {
+		if i < len(vals) {
+			c.Literals[strings.TrimSpace(vals[i])] = p.litVal[n]
+		}
+		i++
+	}
+	c.Lens = map[string]uint64{}
+	k := 0
+	for _, s := range p.sources {
+		for _, t := range s.Terms {
+			if t.sort == SStr {
+				if i < len(vals) && k < len(vals) {
+					if n, err := strconv.ParseUint(strings.TrimPrefix(strings.TrimSpace(vals[i]), "#x"), 16, 64); err == nil {
+						c.Lens[strings.TrimSpace(vals[k])] = n
+					}
+				}
+				i++
+			}
+			k++
+		}
+	}
 	return c
 }
